@@ -955,3 +955,7 @@ CELLS = [
     Cell("C20/lifecycle", lifecycle_case(), check_lifecycle, 100, 4000,
          "histories of assemble / clear / grade / backport: grade and backport rejected iff the mesh is not assembled"),
 ]
+
+# thorough tier: coverage-guided campaigns (atheris / libFuzzer) over the cheap boundary cells, so that coverage of the
+# validation branches steers argument generation
+FUZZ_CELLS = [(c.id, 8000) for c in CELLS if c.id.startswith(("C20/index/", "C20/count/", "C20/length-ratio/", "C20/projection/"))]
